@@ -856,7 +856,8 @@ pub fn k_labelctx() -> Class {
 /// errors with multi-token spans (try_map over a sequence) and context stacks (as_context) pending at the
 /// same position - so that the direction in which map_err merges errors back is observable.
 pub fn k_maperr() -> Class {
-    let leaves = vec![Just('a'), Just('b'), Any];
+    // two-token leaves: a try_map over one is a 2-node error with a multi-token span, a labelled one fails "further in"
+    let leaves = vec![Just('a'), Just('b'), Any, JustSeq('a', 'b'), JustSeq('b', 'a')];
     let unary = vec![u1(|a| Some(MapErr(a))), u1(|a| Some(TryMap(a))), u1(|a| Some(OrNot(a))), u1(|a| Some(Labelled(a, true)))];
     let binary = vec![u2(|a, c| Some(Then(a, c))), u2(|a, c| Some(Or(a, c)))];
     Class { name: "Kmaperr", leaves, unary, binary, ternary: vec![] }
